@@ -145,20 +145,28 @@ Definition pe_static (pe : pe_data) (address : N) (first : bool) : sclass rule :
     end
   end.
 
-Lemma final_pop_dyn c rg m : match final_pop c rg m with CbRule _ | CbErr _ => False | _ => True end.
+Lemma pe_uncacheable_dyn first rg0 ra rg' :
+  match pe_uncacheable first rg0 ra rg' with CbRule _ | CbErr _ => False | _ => True end.
 Proof.
-  unfold final_pop. destruct (m (sp rg)); [|exact I].
-  destruct (sp rg + 8 <? W64); [exact I|]. destruct c; exact I.
+  unfold pe_uncacheable. destruct ((sp rg' =? sp rg0) && (ra =? ip rg0)); [exact I|].
+  destruct (negb first && (sp rg' <=? sp rg0)); exact I.
 Qed.
 
-Lemma pe_step_ok pe address first rg m :
+Lemma final_pop_dyn c first rg0 rg m :
+  match final_pop c first rg0 rg m with CbRule _ | CbErr _ => False | _ => True end.
+Proof.
+  unfold final_pop. destruct (m (sp rg)); [|exact I].
+  destruct (sp rg + 8 <? W64); [apply pe_uncacheable_dyn|]. destruct c; exact I.
+Qed.
+
+Lemma pe_step_raw_ok pe address first rg m :
   match pe_static pe address first with
-  | SRule _ r => fst (pe_step true pe address first rg m) = CbRule r
-  | SErr _ => fst (pe_step true pe address first rg m) = CbErr rg
-  | SDyn _ => match fst (pe_step true pe address first rg m) with CbRule _ | CbErr _ => False | _ => True end
+  | SRule _ r => fst (pe_step_raw true pe address first rg m) = CbRule r
+  | SErr _ => fst (pe_step_raw true pe address first rg m) = CbErr rg
+  | SDyn _ => match fst (pe_step_raw true pe address first rg m) with CbRule _ | CbErr _ => False | _ => True end
   end.
 Proof.
-  unfold pe_static, pe_step.
+  unfold pe_static, pe_step_raw.
   destruct (pe_lookup (pe_funcs pe) address None) as [f|]; [|reflexivity].
   destruct (ui_at (pe_uinfos pe) (rt_uinfo f)) as [u0| |]; try reflexivity.
   assert (TAIL :
@@ -187,8 +195,8 @@ Proof.
                | Some _ => (CbHang, pe_eff_alloc)
                | None =>
                  match run_ops_pe u0 (all_ops (address - rt_begin f) infos) rg m with
-                 | OpCont rg' => (final_pop true rg' m, pe_eff_alloc)
-                 | OpBreak ra rg' => (CbUncacheable ra rg', pe_eff_alloc)
+                 | OpCont rg' => (final_pop true first rg rg' m, pe_eff_alloc)
+                 | OpBreak ra rg' => (pe_uncacheable first rg ra rg', pe_eff_alloc)
                  | OpNoStack rg' => (CbErrV rg', pe_eff_alloc)
                  | OpPanic => (CbPanic S_pe_dep, pe_eff_alloc)
                  end
@@ -207,8 +215,8 @@ Proof.
                | Some _ => (CbHang, pe_eff_alloc)
                | None =>
                  match run_ops_pe u0 (all_ops (address - rt_begin f) infos) rg m with
-                 | OpCont rg' => (final_pop true rg' m, pe_eff_alloc)
-                 | OpBreak ra rg' => (CbUncacheable ra rg', pe_eff_alloc)
+                 | OpCont rg' => (final_pop true first rg rg' m, pe_eff_alloc)
+                 | OpBreak ra rg' => (pe_uncacheable first rg ra rg', pe_eff_alloc)
                  | OpNoStack rg' => (CbErrV rg', pe_eff_alloc)
                  | OpPanic => (CbPanic S_pe_dep, pe_eff_alloc)
                  end
@@ -227,8 +235,8 @@ Proof.
                | Some _ => (CbHang, pe_eff_alloc)
                | None =>
                  match run_ops_pe u0 (all_ops (address - rt_begin f) infos) rg m with
-                 | OpCont rg' => (final_pop true rg' m, pe_eff_alloc)
-                 | OpBreak ra rg' => (CbUncacheable ra rg', pe_eff_alloc)
+                 | OpCont rg' => (final_pop true first rg rg' m, pe_eff_alloc)
+                 | OpBreak ra rg' => (pe_uncacheable first rg ra rg', pe_eff_alloc)
                  | OpNoStack rg' => (CbErrV rg', pe_eff_alloc)
                  | OpPanic => (CbPanic S_pe_dep, pe_eff_alloc)
                  end
@@ -239,8 +247,9 @@ Proof.
   { destruct (chain_infos CHAIN_LIMIT pe u0) as [[infos|]|e|s|]; cbn; try exact I; try reflexivity.
     destruct (address <? rt_begin f); [exact I|].
     destruct (rule_for_sequence (map oop_of_uop (all_ops (address - rt_begin f) infos))) as [[r|e|s|]|]; cbn; try exact I; try reflexivity.
-    destruct (run_ops_pe u0 (all_ops (address - rt_begin f) infos) rg m); cbn; try exact I.
-    apply final_pop_dyn. }
+    destruct (run_ops_pe u0 (all_ops (address - rt_begin f) infos) rg m); cbn [fst]; try exact I.
+    - apply final_pop_dyn.
+    - apply pe_uncacheable_dyn. }
   destruct first; [|exact TAIL].
   destruct (rt_end f <? address); [reflexivity|].
   destruct (pe_text pe) as [[[lo hi] bytes]|]; [|reflexivity].
@@ -249,7 +258,23 @@ Proof.
   destruct (Nat.ltb (length (skipn (N.to_nat (address - lo)) bytes)) (N.to_nat (rt_end f - address))); [reflexivity|].
   destruct (eparse_sequence _ (ui_fpreg u0)) as [insns|]; [|exact TAIL].
   destruct (rule_for_sequence (map oop_of_einsn insns)) as [[r|e|s|]|]; cbn; try exact I; try reflexivity.
-  destruct (run_epilog true u0 insns rg m); cbn; try exact I. apply final_pop_dyn.
+  destruct (run_epilog true u0 insns rg m); cbn [fst]; try exact I.
+  - apply final_pop_dyn.
+  - apply pe_uncacheable_dyn.
+Qed.
+
+Lemma pe_step_ok pe address first rg m :
+  match pe_static pe address first with
+  | SRule _ r => fst (pe_step true pe address first rg m) = CbRule r
+  | SErr _ => fst (pe_step true pe address first rg m) = CbErr rg
+  | SDyn _ => match fst (pe_step true pe address first rg m) with CbRule _ | CbErr _ => False | _ => True end
+  end.
+Proof.
+  pose proof (pe_step_raw_ok pe address first rg m) as H. unfold pe_step. cbn [fst].
+  destruct (pe_static pe address first).
+  - rewrite H. reflexivity.
+  - rewrite H. reflexivity.
+  - destruct (fst (pe_step_raw true pe address first rg m)); cbn [pe_restore]; auto.
 Qed.
 
 Definition cb_static_x86 (md : xmodule) (first : bool) (rel : N) : sclass rule :=
